@@ -45,6 +45,8 @@ def build_index(w, rec, variant, coin='bitcoin'):
         if r['failed']:
             pf = b != 0 and recs[r['prev']]['failed']
             status |= btc.FAILED_CHILD if pf else btc.FAILED_VALID
+        if (b * 7 + variant) % 3 == 0:
+            status |= btc.OPT_WITNESS
         d.record(blk['hdr'], r['h'], status, 1 if r['data'] else 0, fileno, off, undo=off + 1000)
     if not d.files:
         d.raw(0, b'')
